@@ -38,15 +38,39 @@
 /* exact-size heap copy of n octets (so that any overrun is an out-of-object access) */
 static inline void* vp_dup(const void* src, size_t n)
 {
-	void* p = malloc(n ? n : 1);
+	void* p = malloc(n);
 	VP_MALLOC_OK(p);
 	if (n) memcpy(p, src, n);
 	return p;
 }
 static inline void* vp_alloc(size_t n)
 {
-	void* p = malloc(n ? n : 1);
+	void* p = malloc(n);
 	VP_MALLOC_OK(p);
+	return p;
+}
+/* buffer of n <= cap octets whose END coincides with the end of a heap object.
+ * CBMC: the object has the constant size cap and the buffer starts at offset cap-n
+ * (a symbolic-size malloc costs 20x more in the solver); every access at or past
+ * buffer+n is out of the object. Native replay: exact malloc(n) (ASan sees both ends). */
+static inline void* vp_alloc_end(size_t n, size_t cap)
+{
+#ifdef VP_CBMC
+	unsigned char* p = (unsigned char*)malloc(cap);
+	VP_MALLOC_OK(p);
+	VP_ASSUME(n <= cap);
+	return p + (cap - n);
+#else
+	void* p = malloc(n);
+	VP_MALLOC_OK(p);
+	return p;
+#endif
+}
+static inline void* vp_dup_end(const void* src, size_t n, size_t cap)
+{
+	unsigned char* p = (unsigned char*)vp_alloc_end(n, cap);
+	size_t i;
+	for (i = 0; i < n; ++i) p[i] = ((const unsigned char*)src)[i];
 	return p;
 }
 static inline int vp_eq(const void* a, const void* b, size_t n)
